@@ -5,6 +5,7 @@ import (
 	"bytes"
 	"context"
 	"fmt"
+	"io"
 	stdlog "log"
 	stdslog "log/slog"
 	"os"
@@ -13,6 +14,7 @@ import (
 	"strconv"
 	"strings"
 	"sync"
+	"time"
 
 	"github.com/hedzr/logg/slog"
 	errorsv3 "gopkg.in/hedzr/errors.v3"
@@ -287,6 +289,7 @@ func c14sites(c *Ctx) {
 		}
 		// every severity must pass: Always admits all
 		target.SetLevel(slog.AlwaysLevel)
+		var skipParent slog.Logger // the logger WithSkip was called on
 		via := "SetSkip"
 		if idx%2 == 1 && (cl.skip == 0 || cl.setFn || cl.kind == "default") {
 			// the skip count had another value before (a facade that sets it and puts it back): only the current one counts
@@ -299,6 +302,7 @@ func c14sites(c *Ctx) {
 				target.SetSkip(cl.skip)
 			} else {
 				via = "WithSkip"
+				skipParent = target
 				ch := target.WithSkip(cl.skip)
 				ch.SetWriter(w).SetErrorWriter(w)
 				// another child with another skip count is derived from the same parent before ch is used
@@ -332,7 +336,37 @@ func c14sites(c *Ctx) {
 		}
 		ctx := context.Background()
 		var stack []site
-		for round := 0; round < 2; round++ { // twice from the same call site: a second record must be attributed like the first
+		// every 50th cell first issues records from 320 other call sites (more than any bounded per-call-site table is
+		// likely to hold): the sites of this cell, visited before in this process, are attributed as always
+		if idx%50 == 0 {
+			quiet := slog.New("many-sites").Root()
+			quiet.SetWriter(io.Discard).SetErrorWriter(io.Discard).SetLevel(slog.AlwaysLevel)
+			for _, pc := range c06sitePCs {
+				quiet.WriteThru(ctx, slog.InfoLevel, time.Unix(1700000000, 0), pc, "a record from one of 320 call sites", nil)
+			}
+			c.R.Add("sweeps_over_320_other_call_sites", 1)
+		}
+		for round := 0; round < 3; round++ { // again from the same call site: a later record must be attributed like the first
+		want0 := false
+		if round == 1 && skipParent != nil {
+			// the per-call wrapper idiom: WithSkip(n) is evaluated again (it keeps one child per n; the count stays n)
+			ch := skipParent.WithSkip(cl.skip)
+			ch.SetWriter(w).SetErrorWriter(w)
+			target = ch
+			c.R.Add("WithSkip_evaluated_again_for_the_same_count", 1)
+		}
+		if round == 2 {
+			// a logger derived from the one that carries the skip count was itself given none: its records are attributed
+			// to the statement that issued them
+			te, ok := target.(*slog.Entry)
+			if !ok || cl.skip == 0 || e.kind != "native" || e.extra != 0 {
+				break
+			}
+			sub := te.New("derived-from-the-skipper")
+			sub.SetWriter(w).SetErrorWriter(w).SetLevel(slog.AlwaysLevel)
+			target, want0 = sub, true
+			c.R.Add("records_through_a_child_of_a_logger_with_a_skip_count", 1)
+		}
 		log.Reset()
 		if idx%2 == 0 {
 			stack = chain(cl.skip, cl.noinline, func() []site { return e.call(target, sl, bl, ctx) })
@@ -363,7 +397,11 @@ func c14sites(c *Ctx) {
 		}
 		// expected frame: the call statement for skip 0, n logical frames up for skip n. With closures in the
 		// wrapper chain each level contributes two frames (wrapper + closure), with the direct chain one.
-		want, ok := expectedFrame(stack, cl.skip-e.extra)
+		wantSkip := cl.skip - e.extra
+		if want0 {
+			wantSkip = 0
+		}
+		want, ok := expectedFrame(stack, wantSkip)
 		if !ok {
 			c.R.Violation(idx, "harness", "C14/harness/stack", fmt.Sprintf("stack too short: %+v", stack), desc)
 			return
@@ -387,7 +425,7 @@ func c14sites(c *Ctx) {
 			gotLine = want.Line // no line reported under the cleared flag
 		}
 		if gotLine != want.Line || filepath.Clean(gotFile) != filepath.Clean(want.File) || gotFn != wantFn {
-			c.R.Violation(idx, "attribution", sig("attribution"), fmt.Sprintf("record says %s:%s %s; the statement that issued it (skip %d) is %s:%d %s\nstack at the call: %+v", d.Caller["file"], d.Caller["line"], gotFn, cl.skip, want.File, want.Line, want.Func, stack), desc)
+			c.R.Violation(idx, "attribution", sig("attribution"), fmt.Sprintf("record says %s:%s %s; the statement that issued it (skip %d) is %s:%d %s\nstack at the call: %+v", d.Caller["file"], d.Caller["line"], gotFn, wantSkip, want.File, want.Line, want.Func, stack), desc)
 			return
 		}
 		c.R.Add("attributions_confirmed", 1)
